@@ -244,6 +244,9 @@ func (x *Exec) call(st *State, c *ast.CallExpr) []Value {
 		args = append(args, v)
 	}
 	cal := x.resolveCallee(fn, recvT, c)
+	if cal == nil && recv == nil && isStdScalarFunc(fn) {
+		return x.stdScalarCall(st, fn, args, c)
+	}
 	if cal != nil && cal.ct == nil && cal.pkg != nil && cal.pkg.FindFuncObj(cal.fn) != nil {
 		// a function of the repository without a contract: nothing is known
 		// about its result, and everything its body (transitively) may write is
@@ -392,6 +395,53 @@ func (x *Exec) builtin(st *State, c *ast.CallExpr, name string) []Value {
 	}
 	x.unsup(c.Pos(), "builtin %s", name)
 	return nil
+}
+
+// stdScalarCall: see isStdScalarFunc. math/bits.Len* additionally get their
+// defining facts (the result is 0 exactly for 0 and at most the width).
+func (x *Exec) stdScalarCall(st *State, fn *types.Func, args []Value, c *ast.CallExpr) []Value {
+	vc := x.vc
+	sig := fn.Type().(*types.Signature)
+	name := fn.Pkg().Name() + "." + fn.Name()
+	note := "stdlib " + fn.FullName() + " assumed pure and total"
+	seen := false
+	for _, a := range vc.abstractedCalls {
+		if a == note {
+			seen = true
+		}
+	}
+	if !seen {
+		vc.abstractedCalls = append(vc.abstractedCalls, note)
+	}
+	var ts []Term
+	var sorts []string
+	for _, a := range args {
+		ts = append(ts, a.T)
+		sorts = append(sorts, a.T.Sort)
+	}
+	var out []Value
+	for i := 0; i < sig.Results().Len(); i++ {
+		rt := sig.Results().At(i).Type()
+		sym := fmt.Sprintf("std!%s!%d", sanitize(name), i)
+		vc.declareFun(sym, sorts, vc.sortOf(rt))
+		t := app(vc.sortOf(rt), sym, ts...)
+		r := vc.name(st, "std_"+fn.Name(), t)
+		out = append(out, Value{T: r, Ty: rt})
+		vc.assumeFacts(st, r, rt)
+	}
+	if fn.Pkg().Path() == "math/bits" && strings.HasPrefix(fn.Name(), "Len") && len(args) == 1 && len(out) == 1 {
+		width := map[string]int64{"Len8": 8, "Len16": 16, "Len32": 32, "Len64": 64, "Len": 64}[fn.Name()]
+		if width > 0 {
+			ai, _ := intInfo(args[0].Ty)
+			ri, _ := intInfo(out[0].Ty)
+			zeroA := intLit(vc.mode, ai, bigZero())
+			zeroR := intLit(vc.mode, ri, bigZero())
+			st.assume(tEq(tEq(args[0].T, zeroA), tEq(out[0].T, zeroR)))
+			st.assume(vc.compare(token.GEQ, out[0].T, zeroR, ri))
+			st.assume(vc.compare(token.LEQ, out[0].T, intLit(vc.mode, ri, bigInt(width)), ri))
+		}
+	}
+	return out
 }
 
 // clearCall models clear(m) (empty map) and clear(s) (zeroed elements).
@@ -850,10 +900,34 @@ func (x *Exec) applyContract(st *State, cal *Callee, recv *Value, args []Value, 
 		}
 		outside = tAnd(rs...)
 	}
-	for _, e := range ct.Ensures {
-		st.assume(tImplies(outside, x.safeEval(post, e, pos)))
+	for i, e := range ct.Ensures {
+		g := x.safeEval(post, e, pos)
+		// a guarantee is conditional on the known-finding regions only if it is
+		// itself a recorded known finding; the callee's other postconditions
+		// are proved unconditionally in the callee's own verification
+		if len(ct.Findings) > 0 && postIsKnownFinding(calleeName, i) {
+			g = tImplies(outside, g)
+		}
+		st.assume(g)
 	}
 	return results
+}
+
+// knownPostFindings: obligation names of the `known` entries of
+// known_findings.jsonl (loaded by main).
+var knownPostFindings = map[string]bool{}
+
+func postIsKnownFinding(calleeName string, i int) bool {
+	if len(knownPostFindings) == 0 {
+		return true // no list loaded (development mode): stay conservative
+	}
+	base := fmt.Sprintf("%s#post[%d", calleeName, i)
+	for n := range knownPostFindings {
+		if strings.HasPrefix(n, base+"]") || strings.HasPrefix(n, base+".") {
+			return true
+		}
+	}
+	return false
 }
 
 func (x *Exec) safeEval(env *SpecEnv, c Clause, pos token.Pos) (t Term) {
